@@ -22,14 +22,15 @@ def _mk_subset_problem():
 
     class QuadSubset(SubsetProblem):
         """score = sum a[i] + sum_{i<j} b[i][j] (+ second separable objective a2); cv = max(0, sum g - cap)"""
-        def __init__(self, space, k, a, b, g, cap, a2=None, obj_wt=None):
+        def __init__(self, space, k, a, b, g, cap, a2=None, g2=None, cap2=None):
             self.pos = {int(v): p for p, v in enumerate(space)}
             self.a = np.array(a, float); self.b = np.array(b, float); self.g = np.array(g, float)
             self.cap = cap; self.a2 = None if a2 is None else np.array(a2, float)
+            self.g2 = None if cap2 is None else np.array(g2, float); self.cap2 = cap2
             self.log = None
             super().__init__(ndecn=k, decn_space=np.array(space), decn_space_lower=np.repeat(min(space), k),
                              decn_space_upper=np.repeat(max(space), k), nobj=1 if a2 is None else 2,
-                             nineqcv=0 if cap is None else 1)
+                             nineqcv=0 if cap is None else (1 if cap2 is None else 2))
 
         def evalfn(self, x, *args, **kwargs):
             x = np.asarray(x)
@@ -39,6 +40,8 @@ def _mk_subset_problem():
             s = self.a[ix].sum() + sum(self.b[ix[p], ix[q]] for p in range(len(ix)) for q in range(p + 1, len(ix)))
             obj = [s] if self.a2 is None else [s, self.a2[ix].sum()]
             cv = [] if self.cap is None else [max(0.0, self.g[ix].sum() - self.cap)]
+            if self.cap2 is not None:
+                cv.append(max(0.0, self.g2[ix].sum() - self.cap2))
             return np.array(obj, float), np.array(cv, float), np.array([], float)
     return QuadSubset
 
@@ -132,7 +135,7 @@ def make_algo(cls, rng, seed):
         return cls(rng=g)
 
 
-def rand_subset_data(rng, n, k, separable, constrained):
+def rand_subset_data(rng, n, k, separable, constrained, tight=False):
     a = [rng.randrange(-4, 5) for _ in range(n)]
     b = [[0] * n for _ in range(n)]
     if not separable:
@@ -140,18 +143,33 @@ def rand_subset_data(rng, n, k, separable, constrained):
             for q in range(p + 1, n):
                 b[p][q] = b[q][p] = rng.choice([0, 0, 1, 3, -2])
     g = [rng.choice([0, 1, 1, 2, 3]) for _ in range(n)]
-    cap = None
+    cap = None; g2 = [0] * n; cap2 = None
     if constrained:
-        lo = sum(sorted(g)[:k])                 # always satisfiable
+        lo = sum(sorted(g)[:k])                 # satisfiable alone
         cap = lo + rng.choice([0, 1, 2, 4, 6])
+        if tight:                               # possibly infeasible: searches end on plateaus of equal total violation
+            cap = max(0, lo - rng.choice([0, 1, 2]))
+        if rng.random() < 0.5:
+            g2 = [rng.choice([0, 1, 2, 3]) for _ in range(n)]
+            lo2 = sum(sorted(g2)[:k])
+            cap2 = max(0, lo2 - rng.choice([0, 1, 2])) if tight else lo2 + rng.choice([0, 1, 2, 4, 6])
     space = rng.sample(range(0, 40), n)
     if rng.random() < 0.5:
         space.sort()
-    return space, a, b, g, cap
+    return space, a, b, g, cap, g2, cap2
 
 
-def subset_fields(c, space, n, k, a, b, g, cap):
-    c.update(n=n, k=k, a=a, b=b, g=g, con=cap is not None, cap=cap if cap is not None else 0)
+def subset_fields(c, space, n, k, a, b, g, cap, g2, cap2):
+    c.update(n=n, k=k, a=a, b=b, g=g, ncon=0 if cap is None else (1 if cap2 is None else 2), cap=cap if cap is not None else 0,
+             g2=g2, cap2=cap2 if cap2 is not None else 0)
+
+
+def cvlist(arr, ncon):
+    """reported violation components as integers (10**6 where not an integer)"""
+    v = np.asarray(arr, dtype=float).ravel()
+    if v.size != ncon:
+        return [10 ** 6] * max(ncon, 1)
+    return [toint(x) if toint(x) is not None else 10 ** 6 for x in v]
 
 
 NORESULT = ("object of type 'NoneType' has no len()", "must have dimension equal to 2")
@@ -207,8 +225,11 @@ def run(ctx):
 
     # ---------------------------------------------------------------- single-objective subset optimisers
     nso = 320 if thorough else 90
-    for t in range(nso):
-        for name in ALGOS_SO:
+    plan = [(name, False) for t in range(nso) for name in ALGOS_SO]
+    # plateau batch: two tight integer constraints, so that climbers accept exchanges of equal total violation
+    plan += [(name, True) for t in range(300 if thorough else 80) for name in ALGOS_SO[1:3]]
+    for name, plateau in plan:
+        if True:
             n = rng.randrange(3, 10)
             k = rng.randrange(1, n)
             sorting = name == "SortingSubsetOptimizationAlgorithm"
@@ -216,28 +237,32 @@ def run(ctx):
             constrained = (not sorting) and rng.random() < 0.6
             if sorting and rng.random() < 0.35:
                 separable = False                     # non-separable: only well-formedness is required
-            space, a, b, g, cap = rand_subset_data(rng, n, k, separable, constrained)
-            prob = QuadSubset(space, k, a, b, g, cap)
+            climber = "HillClimber" in name
+            if plateau:
+                n = rng.randrange(6, 11); k = rng.randrange(2, 5); constrained = True; separable = rng.random() < 0.5
+            space, a, b, g, cap, g2, cap2 = rand_subset_data(rng, n, k, separable, constrained, tight=plateau or (climber and rng.random() < 0.5))
+            if plateau and cap2 is None:
+                g2 = [rng.choice([0, 1, 2, 3]) for _ in range(n)]; cap2 = max(0, sum(sorted(g2)[:k]) - rng.choice([0, 1, 2]))
+            prob = QuadSubset(space, k, a, b, g, cap, g2=g2, cap2=cap2)
             before = snapshot(prob)
             seed = rng.randrange(2 ** 31)
             np.random.seed(seed)
             alg = make_algo(get_algo(name), rng, seed)
-            climber = "HillClimber" in name
             c = {"kind": "climb" if climber else "subset", "algo": name, "seed": seed}
-            subset_fields(c, space, n, k, a, b, g, cap)
+            subset_fields(c, space, n, k, a, b, g, cap, g2, cap2)
             c["req"] = "global" if (sorting and separable) else "valid"
             prob.log = []
             try:
                 with time_limit(60):
                     soln = alg.minimize(prob)
             except Timeout:
-                c.update(err="non-termination", decn=[], obj=0, cv=0, lat=False, unchanged=True, dtypeok=True, states=[])
+                c.update(err="non-termination", decn=[], obj=0, cv=[], lat=False, unchanged=True, dtypeok=True, states=[])
                 finish_case(c, name); continue
             except Exception as e:
                 err, msg = classify_exc(e, cap is not None and "Genetic" in name)
                 if err == "noresult":
                     noresult.append((name, seed)); continue
-                c.update(err=err, decn=[], obj=0, cv=0, lat=False, unchanged=True, dtypeok=True, states=[])
+                c.update(err=err, decn=[], obj=0, cv=[], lat=False, unchanged=True, dtypeok=True, states=[])
                 finish_case(c, name); continue
             log = prob.log; prob.log = None
             dec = np.asarray(soln.soln_decn)
@@ -256,8 +281,8 @@ def run(ctx):
             c["lat"] = bool(lat)
             ro = toint(np.asarray(soln.soln_obj).ravel()[0]) if np.asarray(soln.soln_obj).size else None
             c["obj"] = ro if ro is not None else 10 ** 6
-            rcv = np.asarray(soln.soln_ineqcv).ravel()
-            c["cv"] = (toint(rcv[0]) if rcv.size and toint(rcv[0]) is not None else 10 ** 6) if cap is not None else (0 if rcv.size == 0 else 10 ** 6)
+            c["cv"] = cvlist(np.asarray(soln.soln_ineqcv)[0] if np.asarray(soln.soln_ineqcv).ndim == 2 else soln.soln_ineqcv, c["ncon"]) if c["ncon"] else \
+                ([] if np.asarray(soln.soln_ineqcv).size == 0 else [10 ** 6])
             c["unchanged"] = snapshot(prob) == before
             if climber:
                 # trajectory from the evaluation log: [start?] then rounds of k*(n-k) proposals; in a round the first proposal
@@ -292,15 +317,15 @@ def run(ctx):
         for mod, cls in ALGOS_MO:
             n = rng.randrange(4, 10)
             k = rng.randrange(1, n - 1)
-            space, a, b, g, cap = rand_subset_data(rng, n, k, rng.random() < 0.5, rng.random() < 0.5)
+            space, a, b, g, cap, g2, cap2 = rand_subset_data(rng, n, k, rng.random() < 0.5, rng.random() < 0.5)
             a2 = [rng.randrange(-4, 5) for _ in range(n)]
-            prob = QuadSubset(space, k, a, b, g, cap, a2=a2)
+            prob = QuadSubset(space, k, a, b, g, cap, a2=a2, g2=g2, cap2=cap2)
             before = snapshot(prob)
             seed = rng.randrange(2 ** 31)
             np.random.seed(seed)
             alg = make_algo(get_algo(mod, cls), rng, seed)
             c = {"kind": "front", "algo": cls, "seed": seed, "a2": a2}
-            subset_fields(c, space, n, k, a, b, g, cap)
+            subset_fields(c, space, n, k, a, b, g, cap, g2, cap2)
             try:
                 with time_limit(120):
                     soln = alg.minimize(prob)
@@ -320,10 +345,9 @@ def run(ctx):
                 except Exception:
                     lat = False
                 o = [toint(v) for v in so[s]] if so.ndim == 2 else [None, None]
-                cvv = (toint(sc[s][0]) if cap is not None and sc.ndim == 2 and sc.shape[1] == 1 else 0)
                 sols.append({"decn": [pos.get(toint(v), -1) for v in dec[s]],
                              "o1": o[0] if o[0] is not None else 10 ** 6, "o2": o[1] if o[1] is not None else 10 ** 6,
-                             "cv": cvv if cvv is not None else 10 ** 6})
+                             "cv": cvlist(sc[s], c["ncon"]) if (c["ncon"] and sc.ndim == 2) else []})
             c.update(sols=sols, lat=bool(lat), dtypeok=bool(dec.ndim == 2 and np.issubdtype(dec.dtype, np.integer)),
                      unchanged=snapshot(prob) == before)
             finish_case(c, cls)
